@@ -2,7 +2,7 @@
 import os, json, glob
 from explore import Job, run_jobs, generic_search, generic_replay, Disagreement, impl_step, _masked_equal
 import c05lib
-from c05lib import (MonitorInst, AFifoTokInst, AFifoInst, BusSyncInst, BusSync1Inst, PulseSyncInst, AxiLiteCdcInst, AFifoRstInst, UartFifoInst,
+from c05lib import (AFifoRst2Inst, AFifoSyncRstInst, PulseGapInst, MonitorInst, AFifoTokInst, AFifoInst, BusSyncInst, BusSync1Inst, PulseSyncInst, AxiLiteCdcInst, AFifoRstInst, UartFifoInst,
                     same_domain_inst, run_jobs_safe, CrossScoreboard)
 from litex.soc.interconnect import stream
 
@@ -107,6 +107,14 @@ def jobs(tier):
     B(lambda: AFifoRstInst("ClockDomainCrossing(8,common_rst)/8b/short resets", L8, 3, long_resets=False))
     B(lambda: AFifoRstInst("ClockDomainCrossing(8,buffered,common_rst)/8b/short resets", L8, 3, buffered=True,
                            long_resets=False))
+    # per-domain resets (plain crossing, the two user resets independent): model/code agreement
+    B(lambda: AFifoRst2Inst("ClockDomainCrossing(8)/8b/independent domain resets", L8, 3), cycles=4000)
+    B(lambda: AFifoRst2Inst("ClockDomainCrossing(4,buffered)/8b/independent domain resets", L8, 2, buffered=True),
+      cycles=4000)
+    # common reset through the REAL reset synchronisers (vendor FDPE pair interpreted): pulses of any length
+    B(lambda: AFifoSyncRstInst("ClockDomainCrossing(8,common_rst)/8b/real reset synchronisers", L8, 3), cycles=5000)
+    B(lambda: AFifoSyncRstInst("ClockDomainCrossing(4,buffered,common_rst)/8b/real reset synchronisers", L8, 2,
+                               buffered=True), cycles=5000)
     # BusSynchronizer: clocks with drift ratio <= 3 (the property's quantifier), coherence + convergence monitors
     B(lambda: BusSyncInst("BusSynchronizer(8,t=128)/R<=3", 8, 128, ratio_max=3), cycles=20000)
     B(lambda: BusSyncInst("BusSynchronizer(5,t=19)/R<=3", 5, 19, ratio_max=3), cycles=20000)
@@ -118,9 +126,15 @@ def jobs(tier):
     B(lambda: BusSyncInst("BusSynchronizer(8,t=128)/i:o=30:10 phase 1", 8, 128, pattern=(30, 10, 1)), cycles=12000)
     B(lambda: BusSyncInst("BusSynchronizer(4,t=19)/i:o=14:10 phase 2", 4, 19, pattern=(14, 10, 2)), cycles=12000)
     B(lambda: BusSyncInst("BusSynchronizer(8,t=19)/i:o=10:30 phase 7", 8, 19, pattern=(10, 30, 7)), cycles=12000)
+    # the default time-out at the limit of bussync_coherent_default: i clock 30 times faster than the o clock
+    B(lambda: BusSyncInst("BusSynchronizer(8,t=128)/i:o=10:300 phase 7 (R=30)", 8, 128, ratio_max=30,
+                          pattern=(10, 300, 7)), cycles=8000)
     B(lambda: MonitorInst("Monitor(count_width=4, clock_domain=phy)", 4), cycles=15000)
     B(lambda: MonitorInst("Monitor(count_width=32, clock_domain=phy)", 32), cycles=8000)
     B(lambda: PulseSyncInst("PulseSynchronizer/spaced pulses"), cycles=20000)
+    # minimum spacing allowed by pulsesync_spacing under drift bound R
+    B(lambda: PulseGapInst("PulseSynchronizer/R=1, period R+2", 1), cycles=8000)
+    B(lambda: PulseGapInst("PulseSynchronizer/R=3, period R+2", 3), cycles=8000)
     return J
 
 
@@ -152,6 +166,32 @@ def corner_checks(ctx):
                 dis.append(Disagreement(inst, trace, t, o, None, kind="monitor:" + msg))
                 break
         ctx.cov.add_cases("corner:" + what + " built, scoreboard run", len(trace), len(trace))
+    return dis
+
+
+def pulse_tight_checks(ctx):
+    """The Lean witness `psTight R` (pulsesync_spacing_tight) is fetched from the driver and replayed on the real
+    PulseSynchronizer: model and code agree instant by instant, and on the real module both pulses are lost."""
+    dis = []
+    for R in (0, 1, 2, 3, 6):
+        ans = ctx.lean.call_batch(["ps_tight %d" % R])[0]
+        trace = [tuple(int(v) for v in l.split()) for l in ans.split(";")]
+        inst = PulseSyncInst("PulseSynchronizer / psTight %d" % R)
+        impl_outs = [impl_step(inst, l) for l in trace]
+        ctx.lean.open(inst.lean_open)
+        model_outs = ctx.lean.run([list(l) for l in trace])
+        ctx.lean.close_session()
+        for t in range(len(trace)):
+            if not _masked_equal(inst, impl_outs[t], model_outs[t]):
+                dis.append(Disagreement(inst, trace[:t + 1], t, impl_outs[t], model_outs[t]))
+                break
+        sent = sum(1 for l in trace if l[0] and l[3])
+        seen = sum(1 for l, o in zip(trace, impl_outs) if l[1] and o[0])
+        if (sent, seen) != (2, 0):
+            ctx.cov.notes.append("psTight %d on the real PulseSynchronizer: %d sent, %d seen (the theorem's witness "
+                                 "says 2 sent, 0 seen)" % (R, sent, seen))
+        ctx.cov.add_cases("witness: psTight %d (pulse spacing one below the bound)" % R, len(trace), len(trace),
+                          exhaustive=False)
     return dis
 
 
@@ -249,6 +289,13 @@ def glue_checks(ctx):
             mk = lambda p=p, dt=dt, dr=dr: uart.UART(phy=None, tx_fifo_depth=dt, rx_fifo_depth=dr, phy_cd=p)
             cases.append(("uart_tx %d %s" % (dt, p), lambda mk=mk: _classify_fifo(mk().tx_fifo)))
             cases.append(("uart_rx %d %s" % (dr, p), lambda mk=mk: _classify_fifo(mk().rx_fifo)))
+    # the periodic-clock schedules of the mode-B BusSynchronizer jobs are the ones `bussync_coherent_periodic` talks
+    # about: harness generator vs Lean `perClocks`
+    def _per(pat, n=60):
+        c = c05lib.PeriodicClocks(*pat)
+        return ";".join("%d %d" % c.next() for _ in range(n))
+    for pat in c05lib.PeriodicClocks.PATTERNS:
+        cases.append(("per_clocks %d %d 0 %d 60" % pat, lambda pat=pat: _per(pat)))
     answers = ctx.lean.call_batch([c[0] for c in cases])
     dis = []
     for (q, real), model in zip(cases, answers):
@@ -318,7 +365,7 @@ def run_corpus(ctx):
 
 
 def correspond(ctx):
-    dis = run_corpus(ctx) + corner_checks(ctx) + glue_checks(ctx)
+    dis = run_corpus(ctx) + corner_checks(ctx) + glue_checks(ctx) + pulse_tight_checks(ctx)
     ctx.jobs = jobs(ctx.tier)
     d2, bad = run_jobs_safe(ctx, ctx.jobs, timeout_s=600 if ctx.tier == "quick" else 3000)
     return dis + d2
